@@ -446,12 +446,16 @@ def run_differential(ck, rng, thorough):
 
     # -O0 is what the project's own differential harness builds with (tests/infra/backend/cpp.py) and is the
     # primary stream; -O2 is the secondary stream (see K_FENV)
-    opt_levels = ['-O0', '-O2']
+    # reference stream: -O0 -frounding-math -- GCC's documented mode for code that changes the rounding mode (no compile-time
+    # folding of inexact operations, no motion); it must agree with the interpreter.  Plain -O0 (what tests/infra/backend/cpp.py
+    # uses) and -O2 are secondary streams: their additional disagreements on mode-switching programs are the K_FENV class.
+    REF = '-O0 -frounding-math'
+    opt_levels = [REF, '-O0', '-O2']
 
     def build_run(job, opt):
         p, cfgs, samples, tu = job
-        exe = tu.with_suffix('.' + opt.strip('-') + '.exe')
-        b = subprocess.run([CXX, '-std=c++17', opt, '-w', '-o', str(exe), str(tu)], capture_output=True, text=True, timeout=600)
+        exe = tu.with_suffix('.' + opt.replace('-', '').replace(' ', '_') + '.exe')
+        b = subprocess.run([CXX, '-std=c++17', *opt.split(), '-w', '-o', str(exe), str(tu)], capture_output=True, text=True, timeout=600)
         if b.returncode != 0:
             return ('build', b.stderr[-1500:])
         try:
@@ -469,7 +473,7 @@ def run_differential(ck, rng, thorough):
     compared = 0
     hist = {}
     agree_O0 = set()      # (program, cfg, sample index) on which the -O0 build agrees with the interpreter
-    order = sorted(range(len(work)), key=lambda k: 0 if work[k][1] == '-O0' else 1)
+    order = sorted(range(len(work)), key=lambda k: 0 if work[k][1] == REF else 1)
     for k in order:
         (job, opt), (status, out) = work[k], results[k]
         p, cfgs, samples, tu = job
@@ -493,7 +497,7 @@ def run_differential(ck, rng, thorough):
                 ck.nontriv((p.family, p.name, ci, opt, repr(args)))
                 bad = len(got) != len(want) or any(not tok_eq(w, g) for w, g in zip(want, got))
                 if not bad:
-                    if opt == '-O0':
+                    if opt == REF:
                         agree_O0.add((p.name, ci, si))
                     continue
                 key = None
@@ -507,11 +511,13 @@ def run_differential(ck, rng, thorough):
                         key = K_NEGZERO_INT
                     # known class 3: the run contains an exact zero sum under RTN, where the interpreter returns +0
                     # and IEEE 754 hardware -0 (both builds differ from the interpreter)
-                    elif K_RTN0 in flags and (opt == '-O0' or (p.name, ci, si) not in agree_O0):
+                    elif K_RTN0 in flags and (opt == REF or (p.name, ci, si) not in agree_O0):
                         key = K_RTN0
-                    # known class 2: only the optimised build differs, on a program that switches the rounding mode:
-                    # g++ moves floating-point operations across std::fesetround (also with -frounding-math)
-                    elif opt != '-O0' and switches_rm and (p.name, ci, si) in agree_O0 and all(isinstance(w, float) for w, g in diffs):
+                    # known class 2: the reference build (-O0 -frounding-math) of the same translation unit agrees with the
+                    # interpreter on this input, this build does not, and the program switches the rounding mode: g++ evaluates
+                    # floating-point operations without regard to the dynamic mode (compile-time folding of literal operands
+                    # even at -O0; motion / CSE across std::fesetround at -O1/-O2, there also with -frounding-math)
+                    elif opt != REF and switches_rm and (p.name, ci, si) in agree_O0 and all(isinstance(w, float) for w, g in diffs):
                         key = K_FENV
                 ck.violation('compiled C++ and interpreter disagree (compile-and-run differential, testing)',
                              {'program': p.name, 'family': p.family, 'source': p.src, 'ctx': p.ctx, 'arg_kinds': p.args,
